@@ -33,6 +33,10 @@ def arr_of(eng, st, v):
         if isinstance(o, ListV):
             return list_arr(eng, st, list(o.items))
         if isinstance(o, SymListV):
+            if o.elem == 'tuple':
+                # np.array(list of k-tuples): an (n, k) array; k is read off one symbolic element
+                k = len(o.at(z3.Int(fresh_name('w'))))
+                return ArrV((o.n, k), lambda i, j, o=o, k=k: eng.select(list(o.at(i)), j), dtype_of(list(o.at(z3.Int(fresh_name('w'))))))
             return ArrV((o.n,), o.at, o.elem if o.elem in ('real', 'int', 'bool') else 'obj')
     if isinstance(v, (tuple, list)):
         return list_arr(eng, st, list(v))
@@ -91,7 +95,19 @@ def getitem(eng, st, ref, o, idx):
             if r.oid in eng.compress_info and o.ndim == 1:
                 eng.compress_info[r.oid]['pointwise'] = lambda i, o=o: o.at(i)
             return r
-        return new_ref(st, ArrV(m.shape, lambda *i, o=o, m=m: o.at(m.at(*i)), o.dtype))
+        # integer (fancy) index array: every entry must be a valid position of the first axis
+        n0 = o.shape[0]
+        if m.ndim != 1:
+            raise OutOfSubset('fancy index array with more than one dimension')
+        if isinstance(m.shape[0], int):
+            goal = and_(*[and_(le(neg(n0), m.at(k)), lt(m.at(k), n0)) for k in range(m.shape[0])]) if m.shape[0] else True
+        else:
+            kk = z3.Int(fresh_name('fi'))
+            goal = z3.ForAll([kk], z3.Implies(z3.And(0 <= kk, kk < to_z3(m.shape[0])),
+                                               z3.And(to_z3(neg(n0)) <= to_z3(m.at(kk)), to_z3(m.at(kk)) < to_z3(n0))))
+        eng.oblige('safe', 'fancy-index', st, goal)
+        wrap = lambda j, n0=n0: ite(lt(j, 0), add(j, n0), j)
+        return new_ref(st, ArrV(tuple(m.shape) + tuple(o.shape[1:]), lambda i, *r, o=o, m=m: o.at(wrap(m.at(i)), *r), o.dtype))
     if len(idx) == 2 and all(isinstance(x, Ref) for x in idx):
         m = arr_of(eng, st, idx[0])
         info = eng.compress_info.get(idx[1].oid)
@@ -181,13 +197,14 @@ def compress(eng, st, o, m):
         res_ref = new_ref(st, ArrV((cnt,), at, o.dtype))
         eng.compress_info[res_ref.oid] = {'src': o, 'mask': m}
         return res_ref
-    if o.ndim != 1:
-        raise OutOfSubset('boolean mask on 2-D array')
+    if m.ndim != 1:
+        raise OutOfSubset('boolean mask with more than one dimension')
+    rest = tuple(o.shape[1:])        # a 1-D mask on an N-D array selects rows
     # symbolic length: phi strictly increasing onto the true cells, rank its inverse (DESIGN 2.3)
     cached = eng.mask_cache.get(id(m))
     if cached is not None and cached[0] is m:
         _, cnt, phi, rank = cached
-        res = ArrV((cnt,), lambda j, o=o, phi=phi: o.at(phi(to_z3(j))), o.dtype)
+        res = ArrV((cnt,) + rest, lambda j, *r, o=o, phi=phi: o.at(phi(to_z3(j)), *r), o.dtype)
         res_ref = new_ref(st, res)
         eng.compress_info[res_ref.oid] = {'src': o, 'mask': m, 'phi': phi, 'rank': rank, 'cnt': cnt}
         return res_ref
@@ -203,7 +220,7 @@ def compress(eng, st, o, m):
     st.assume(z3.ForAll([k, k2], z3.Implies(z3.And(0 <= k, k < k2, k2 < cnt), phi(k) < phi(k2)), patterns=[z3.MultiPattern(phi(k), phi(k2))]))
     st.assume(z3.ForAll([i], z3.Implies(z3.And(0 <= i, i < n, mk(i)), z3.And(0 <= rank(i), rank(i) < cnt, phi(rank(i)) == i)),
                         patterns=[rank(i)]))
-    res = ArrV((cnt,), lambda j, o=o, phi=phi: o.at(phi(to_z3(j))), o.dtype)
+    res = ArrV((cnt,) + rest, lambda j, *r, o=o, phi=phi: o.at(phi(to_z3(j)), *r), o.dtype)
     res_ref = new_ref(st, res)
     eng.compress_info[res_ref.oid] = {'src': o, 'mask': m, 'phi': phi, 'rank': rank, 'cnt': cnt}
     return res_ref
@@ -821,3 +838,17 @@ def np_subtract_outer(eng, st, args, kwargs):
     if a.ndim != 1 or b.ndim != 1:
         raise OutOfSubset('outer of non 1-D arrays')
     yield new_ref(st, ArrV((a.shape[0], b.shape[0]), lambda i, j, a=a, b=b: sub(a.at(i), b.at(j)), 'real')), st
+
+
+@lib('numpy.linalg.lstsq')
+def np_lstsq(eng, st, args, kwargs):
+    """least-squares solution: an unspecified real vector of length A.shape[1] (nothing about its value is assumed);
+    the residuals / rank / singular values are unspecified objects"""
+    a = arr_of(eng, st, args[0])
+    if a is None or a.ndim != 2 or not isinstance(a.shape[1], int):
+        raise OutOfSubset('lstsq with a coefficient matrix whose width is not a constant')
+    b = arr_of(eng, st, args[1])
+    eng.oblige('safe', 'lstsq-shape', st, eq(a.shape[0], b.shape[0]))
+    cells = [z3.Real(fresh_name('lstsq')) for _ in range(a.shape[1])]
+    sol = new_ref(st, ArrV((a.shape[1],), lambda i, cells=cells: eng.select(cells, i), 'real'))
+    yield (sol, Obj('lstsq.residuals'), Obj('lstsq.rank'), Obj('lstsq.sv')), st
